@@ -120,9 +120,12 @@ PROPS = {
     "C06": {"streams": [_KE_STREAM], "oracles": ["ke"], "rule": _KE_RULE, "assumptions": _KE_ASSUME,
             "oracle_n": {"quick": 3000, "thorough": 60000}},
     "C10": {
-        "streams": [_FRAG_STREAM],
+        "streams": [_FRAG_STREAM, {"name": "fragt", "quick": 12000, "thorough": 300000, "thorough_seeds": 2, "stateful": True, "seq_start": ("frag-new", "mb-new")}],
         "oracles": ["frag"],
-        "rule": "scenarios over real fragswarm and mbapp receivers fed synchronously by the harness: 1-5 messages from 3 sources, "
+        "rule": "`fragt`: the same scenarios under the fake clock (bin/corr26) with clock steps of 1 ms..2 min between fragments, so that "
+                "the minute-ticker clean-up loops of both layers run at known times (fragswarm drops aggregators older than 10 s; "
+                "mbapp, whose ttl is never set, every collector not created at that very instant); the table sizes are compared. "
+                "`frag`: scenarios over real fragswarm and mbapp receivers fed synchronously by the harness: 1-5 messages from 3 sources, "
                 "sizes at every part-size and MTU boundary, inner MTUs from below the header size to 1200, fragments reordered, "
                 "duplicated, dropped, re-attributed to another source, mutated header fields and packets forged from scratch; "
                 "a case is one op line (tell / recv / state size), distinct by text",
